@@ -28,6 +28,7 @@ pub enum Family {
     HandleChurn,
     Quiesce,
     Teardown,
+    NoReceiver,
 }
 
 impl Family {
@@ -43,6 +44,7 @@ impl Family {
             Family::HandleChurn => "handle-churn",
             Family::Quiesce => "quiesce",
             Family::Teardown => "teardown-orders",
+            Family::NoReceiver => "no-receiver",
         }
     }
     pub fn parse(s: &str) -> Option<Family> {
@@ -57,6 +59,7 @@ impl Family {
             "handle-churn" => Family::HandleChurn,
             "quiesce" => Family::Quiesce,
             "teardown-orders" | "teardown" => Family::Teardown,
+            "no-receiver" => Family::NoReceiver,
             _ => return None,
         })
     }
@@ -865,7 +868,7 @@ pub fn run_once(cfg: &ConcCfg, shard: &mut Shard, keep_sample: bool) -> RunOutco
                 pidx: pi as u32,
                 count: cfg.msgs,
                 sink: cfg.sink && cfg.fut,
-                drop_at_end: matches!(cfg.family, Family::LastSender | Family::Teardown),
+                drop_at_end: matches!(cfg.family, Family::LastSender | Family::Teardown | Family::NoReceiver),
                 max_retries: cfg.max_retries,
                 churn_every: if cfg.family == Family::HandleChurn { 3 + (rng.below(4) as u32) } else { 0 },
             }),
@@ -905,7 +908,9 @@ pub fn run_once(cfg: &ConcCfg, shard: &mut Shard, keep_sample: bool) -> RunOutco
                     _ => {}
                 }
             }
-            let leave_after = if cfg.family == Family::RemoveStream && nh > 1 && ci == nh - 1 {
+            let leave_after = if cfg.family == Family::NoReceiver {
+                Some(1 + rng.below(cfg.msgs as u64 / 2 + 1) as u32)
+            } else if cfg.family == Family::RemoveStream && nh > 1 && ci == nh - 1 {
                 Some(1 + rng.below(cfg.msgs as u64 / 2 + 1) as u32)
             } else if cfg.family == Family::HandleChurn && nh > 1 && ci == nh - 1 && rng.chance(1, 2) {
                 Some(1 + rng.below(cfg.msgs as u64 + 1) as u32)
@@ -1026,7 +1031,7 @@ pub fn run_once(cfg: &ConcCfg, shard: &mut Shard, keep_sample: bool) -> RunOutco
     let pre = hist::merge(logs);
     let probe_from = hist::clock_peek();
     let mut next_probe_id = 0xF000_0000_0000u64;
-    let (drained, qstate, _probe_ok) = if cfg.family == Family::Teardown {
+    let (drained, qstate, _probe_ok) = if matches!(cfg.family, Family::Teardown | Family::NoReceiver) {
         (Vec::new(), 0, true)
     } else {
         quiescent_probe(cfg, first_stream, first_tx, &pre, &mut txs, &mut rxs, &mut next_probe_id)
@@ -1082,6 +1087,7 @@ pub fn run_once(cfg: &ConcCfg, shard: &mut Shard, keep_sample: bool) -> RunOutco
     checkers::check_c03(&c, &ix);
     checkers::check_c07(&c, &ix);
     checkers::check_c11_bool(&c, &ix);
+    checkers::check_c13(&c, &ix);
     if gave_up {
         // a producer was refused max_retries times in a row while consumers were running
         violation(
@@ -1123,6 +1129,7 @@ pub fn run_once(cfg: &ConcCfg, shard: &mut Shard, keep_sample: bool) -> RunOutco
         Family::HandleChurn => churn_overlap,
         Family::Quiesce => send_recv_overlap,
         Family::Teardown => outstanding_at_teardown || wrapped,
+        Family::NoReceiver => h.iter().any(|e| e.op.is_send() && e.res == Res::Disc),
     };
     shard.stat("accepted_sends", total);
     shard.stat("events", h.len() as u64);
